@@ -1,5 +1,6 @@
 #!/bin/bash
 # tools/wave.sh <prefix> <pid> ...   — confirm and run the quick check for every seeded change /tmp/<prefix>-<pid>/m*/ (scratch worktrees only)
+ROOT="$(cd "$(dirname "${BASH_SOURCE[0]}")/.." && pwd)"
 prefix="$1"; shift
 for p in "$@"; do
   for d in /tmp/$prefix-$p/m*/; do
@@ -7,9 +8,9 @@ for p in "$@"; do
     [ -f $d/patch.diff ] || continue
     wt=/tmp/wt-confirm-$$
     git -C /repo worktree add -q --detach $wt HEAD
-    c=$(/verif/tools/confirm_mutant.sh $wt $d 2>&1 | grep RESULT)
+    c=$($ROOT/tools/confirm_mutant.sh $wt $d 2>&1 | grep RESULT)
     git -C /repo worktree remove --force $wt; git -C /repo worktree prune
-    r=$(MUT_WORKTREE=1 /verif/tools/runmutant.sh $d/patch.diff quick $p 2>&1 | tail -1)
+    r=$(MUT_WORKTREE=1 $ROOT/tools/runmutant.sh $d/patch.diff quick $p 2>&1 | tail -1)
     echo "$p $m | $c | $r"
   done
 done
